@@ -254,6 +254,12 @@ def run(ctx: Ctx):
         "float and GEO value equality is the equality of two float.hex() strings computed in Python; the grammar is decided by TLC",
         "TIME values are floating (naive) times; zoned date-times are C11's subject",
     ]
+    # ------------------------------------------------------------- SUITE: calls observed in the repository's own tests
+    from vf import suite
+    suite.step(ctx, "values", ["P:C03"])
+    # ------------------------------------------------------------- FRESH: history independence of returned objects (spec/Fresh.tla)
+    from vf import fresh
+    fresh.step(ctx, "C03")
     return ctx.finish(rule=(
         "value families per type enumerated by TLC (boundary years x all months x critical days; all hours x critical minutes/seconds; "
         "durations over days {0,1,6,7,8,400} x h {0,1,23} x m/s {0,1,59} x sign with all admissible texts; offsets incl. all whole minutes "
